@@ -1183,20 +1183,28 @@ def thread_new_flags(trees):
                             n += 1
                             i += 2
                             continue
-                    if isinstance(s, ast.If) and isinstance(nxt, ast.If) and isinstance(nxt.test, ast.Name) and not nxt.orelse:
-                        f = nxt.test.id
+                    flag_test = None
+                    if isinstance(s, ast.If) and isinstance(nxt, ast.If):
+                        if isinstance(nxt.test, ast.Name):
+                            flag_test = (nxt.test.id, True)
+                        elif isinstance(nxt.test, ast.UnaryOp) and isinstance(nxt.test.op, ast.Not) and isinstance(nxt.test.operand, ast.Name):
+                            flag_test = (nxt.test.operand.id, False)
+                    if flag_test is not None:
+                        f, pol = flag_test
                         lv = leaves(s)
                         if (lv and f not in known and f not in params and counts.get(f) == [len(lv), 1]
                                 and all(isinstance(b[-1], ast.Assign) and len(b[-1].targets) == 1 and isinstance(b[-1].targets[0], ast.Name)
                                         and b[-1].targets[0].id == f for b in lv)):
                             for b in lv:
                                 e = b[-1].value
-                                if isinstance(e, ast.Constant) and not e.value:
-                                    b[-1:] = [] if len(b) > 1 else [ast.copy_location(ast.Pass(), b[-1])]
-                                elif isinstance(e, ast.Constant) and e.value:
-                                    b[-1:] = copy.deepcopy(nxt.body)
+                                if isinstance(e, ast.Constant):
+                                    chosen = nxt.body if bool(e.value) == pol else nxt.orelse
+                                    repl = copy.deepcopy(chosen)
+                                    b[-1:] = repl if (repl or len(b) > 1) else [ast.copy_location(ast.Pass(), b[-1])]
                                 else:
-                                    b[-1] = ast.copy_location(ast.If(test=e, body=copy.deepcopy(nxt.body), orelse=[]), b[-1])
+                                    test = e if pol else _negate(e)
+                                    b[-1] = ast.copy_location(ast.If(test=test, body=copy.deepcopy(nxt.body) or [ast.Pass()],
+                                                                     orelse=copy.deepcopy(nxt.orelse)), b[-1])
                             out.append(s)
                             n += 1
                             i += 2
